@@ -942,7 +942,8 @@ class Problem(object, metaclass=ProblemMetaclass):
 
         self.model.run_solve_linear(mode)
 
-        return {n: lvec[resolver.source(n)].copy() for n in lnames}
+        # scalar (0-d) variables are returned by the vector as python floats
+        return {n: np.array(lvec[resolver.source(n)]) for n in lnames}
 
     def _setup_recording(self):
         """
